@@ -1777,6 +1777,10 @@ def assume_scan(facts, fn, oracle, cap=256):
         l = op_local(t['o'])
         if l is not None and t['ty'] == 'bool':
             v = dict(us).get(l)
+            if v is None:
+                root = switch_root_local(fn, bi)  # `_8 = copy flag; switchInt(move _8)`
+                if root is not None:
+                    v = dict(us).get(root)
             if v is not None:
                 # the tracked constant decides the raw switch
                 tg = [b for val, b in t['ts'] if (val != 0) == v]
@@ -1835,14 +1839,27 @@ def additive_leaves(e):
     return [e]
 
 
-def order_constraint(facts, fn, site, const):
+def order_constraint(facts, fn, site, const, value=None):
     """orderings of (value vs `const`) that hold on every path to block `site`: intersection over the
-    comparison edges against that constant which dominate the site.  Returns (frozenset, n_edges)."""
+    comparison edges against that constant which dominate the site -- `match v { K => .., _ => .. }` counts as the
+    comparison `v == K`.  `value`: optional predicate on the compared expression.  Returns (frozenset, n_edges)."""
     allowed = set(_ORD_ALL)
     n = 0
     for bi, sw in all_switches(facts, fn).items():
+        if sw is not None and sw.kind == 'int' and const in sw.labels.values() and (value is None or value(sw.subject)):
+            for s2, lab in sw.labels.items():
+                if fn.dominated_by_edges(site, [(bi, s2)]):
+                    if lab == const:
+                        allowed &= {'eq'}
+                        n += 1
+                    elif lab == 'else' and all(isinstance(x, int) for x in sw.labels.values() if x != 'else'):
+                        allowed &= {'lt', 'gt'}
+                        n += 1
+            continue
         c = cmp_of(sw)
         if c is None:
+            continue
+        if value is not None and not (value(c[1]) or value(c[2])):
             continue
         op, a, b = c
         sa, sb = strip(a), strip(b)
@@ -2121,35 +2138,49 @@ def control_terms(facts, fn, site, polar=True):
         if t.get('exp') and any(k in t['exp'] for k in ('trace', 'debug', 'event', 'span', 'warn', 'error!', 'info!')):
             continue
         at = predicate_atoms(sw, fn, rich=True)
-        # `match x { 8 => .., _ => .. }` is the test `x == 8`: present a one-value integer switch as that comparison
-        one_value = None
+        # `match x { 3 => .., 4 => .., _ => .. }` is the chain `x == 3`, `x == 4`: an integer switch is presented as
+        # equality tests against its values (value arm: `x&const:v@eq`; default arm: `x&const:v@ne` for every value)
+        int_vals = None
         if sw.kind == 'int':
             vals = [l for l in sw.labels.values() if l != 'else']
-            if len(vals) == 1 and isinstance(vals[0], int) and 'else' in sw.labels.values():
-                one_value = vals[0]
-                at = set(at) | {'const:%d' % one_value}
-        if at:
-            term = '&'.join(sorted(at))
-            if polar:
-                ss = [s for s in sw.labels if s in pd]
-                pol = ''
-                # strong outcome: the site can only be reached after this outcome; weak ('~'): the site can be reached after
-                # either outcome (a join point, a disjunct) but is inevitable only after this one
-                def outcome(edges):
-                    if one_value is not None:
-                        labs = set(sw.labels.get(s) for s in edges)
-                        return 'eq' if labs == {one_value} else ('ne' if labs == {'else'} else '')
-                    return edge_polarity(sw, edges, fn)
-                reach = [s for s in ss if site in fn.reachable([s], cut_blocks=[a])]
-                if reach and len(reach) < len(ss):
-                    pol = outcome(reach)
-                else:
-                    inev = [s for s in ss if site in pd[s]]
-                    if inev and len(inev) < len(ss):
-                        pol = outcome(inev)
-                        if pol:
-                            pol = '~' + pol
-                if pol:
-                    term += '@' + pol
-            terms.append(term)
+            if vals and all(isinstance(v, int) for v in vals) and 'else' in sw.labels.values():
+                int_vals = sorted(set(vals))
+        if not at and int_vals is None:
+            continue
+        base = set(at)
+        pol = ''
+        weak = False
+        edges = []
+        if polar:
+            ss = [s for s in sw.labels if s in pd]
+            # strong outcome: the site can only be reached after this outcome; weak ('~'): the site can be reached after
+            # either outcome (a join point, a disjunct) but is inevitable only after this one
+            reach = [s for s in ss if site in fn.reachable([s], cut_blocks=[a])]
+            if reach and len(reach) < len(ss):
+                edges = reach
+            else:
+                inev = [s for s in ss if site in pd[s]]
+                if inev and len(inev) < len(ss):
+                    edges = inev
+                    weak = True
+        if int_vals is not None and edges:
+            labs = set(sw.labels.get(s) for s in edges)
+            pre = '~' if weak else ''
+            if len(labs) == 1 and next(iter(labs)) in int_vals:
+                terms.append('&'.join(sorted(base | {'const:%d' % next(iter(labs))})) + '@' + pre + 'eq')
+                continue
+            if labs == {'else'}:
+                for v in int_vals:
+                    terms.append('&'.join(sorted(base | {'const:%d' % v})) + '@' + pre + 'ne')
+                continue
+        if not base:
+            continue
+        term = '&'.join(sorted(base))
+        if edges:
+            pol = edge_polarity(sw, edges, fn)
+            if pol and weak:
+                pol = '~' + pol
+        if pol:
+            term += '@' + pol
+        terms.append(term)
     return sorted(terms)
